@@ -353,3 +353,214 @@ Section OneLine.
     eexists c0, _, mn'. split; [reflexivity|]. unfold layout. cbn [app]. reflexivity.
   Qed.
 End OneLine.
+
+(* ====================================================================================== *)
+(* 4. one item: parse_line / build_item undo the writer's value/description order          *)
+(* ====================================================================================== *)
+Lemma is_number_string_case c m : is_number_string (apply_case c m) = is_number_string m.
+Proof. unfold is_number_string. rewrite upper_apply_case. reflexivity. Qed.
+
+(* the value the reader builds from the text s of a value, per section kind *)
+Definition read_value (k : skind) (name s : list N) : hval :=
+  match k with
+  | KCurves => VStr s
+  | KParameter => num s
+  | _ => if is_number_string name then VStr s else num s
+  end.
+
+(* what reading the written line of an item gives *)
+Definition expected_item (fstr : list N -> list N) (k : skind) (c : mcase) (it : hitem) : hitem :=
+  new_item (apply_case c (i_orig it)) (strip_brackets (i_unit it))
+           (read_value k (i_orig it) (vstr fstr (i_value it))) (i_descr it).
+
+Lemma build_item_unswaps fstr v k o name u (it : hitem) :
+  o = reader_order v k name ->
+  build_item v k (mkhl name u (rhs_text fstr o it) (tail_text fstr o it)) =
+  new_item name (strip_brackets u) (read_value k name (vstr fstr (i_value it))) (i_descr it).
+Proof.
+  intros Ho.
+  destruct k; cbn [reader_order] in Ho;
+    cbn [build_item h_name h_unit h_value h_descr read_value];
+    try (rewrite <- Ho; destruct o; reflexivity); subst o; reflexivity.
+Qed.
+
+Section OneItem.
+  Variable fstr : list N -> list N.
+  Variables (v : las_version) (k : skind) (c : mcase) (o : item_order) (lw mw : nat) (it : hitem).
+  Hypothesis Hconf : conf_item fstr k o lw mw it = true.
+  Hypothesis Hcov : covers fstr o lw mw it.
+  Hypothesis Hord : o = reader_order v k (apply_case c (i_orig it)).
+
+  Lemma parse_line_of_hline line :
+    read_header_line line (is_curves_of k) (is_param_of k)
+    = Some (mkhl (i_orig it) (i_unit it) (rhs_text fstr o it) (tail_text fstr o it)) ->
+    parse_line v k c line = Some (expected_item fstr k c it).
+  Proof.
+    intros H. unfold parse_line.
+    change (match k with KCurves => true | _ => false end) with (is_curves_of k).
+    change (match k with KParameter => true | _ => false end) with (is_param_of k).
+    rewrite H. cbn [h_name h_unit h_value h_descr].
+    rewrite (build_item_unswaps fstr v k o _ _ it Hord). unfold expected_item, read_value.
+    rewrite is_number_string_case. reflexivity.
+  Qed.
+
+  (* C03.4 *)
+  Theorem item_roundtrip :
+    parse_line v k c (format_item fstr o lw mw it) = Some (expected_item fstr k c it).
+  Proof. apply parse_line_of_hline. exact (line_roundtrip fstr k o lw mw it Hconf Hcov). Qed.
+
+  Theorem stripped_item_roundtrip :
+    parse_line v k c (strip (format_item fstr o lw mw it)) = Some (expected_item fstr k c it).
+  Proof. apply parse_line_of_hline. exact (stripped_line_roundtrip fstr k o lw mw it Hconf Hcov). Qed.
+End OneItem.
+
+(* ---------- the fields of the expected item -------------------------------------------- *)
+(* the unit is not a bracketed text [..] or (..) *)
+Definition not_bracketed (u : list N) : bool :=
+  negb (((hd 0 u =? 91) && (last u 0 =? 93)) || ((hd 0 u =? 40) && (last u 0 =? 41))).
+
+Lemma strip_brackets_plain u : stripped u = true -> not_bracketed u = true -> strip_brackets u = u.
+Proof.
+  intros Hs Hb. unfold strip_brackets. rewrite (strip_stripped u Hs).
+  destruct u as [|a [|b u]]; [reflexivity|reflexivity|].
+  unfold not_bracketed in Hb. cbn [hd] in Hb. apply negb_true_iff in Hb. rewrite Hb. reflexivity.
+Qed.
+
+Lemma strip_brackets_conf u : conf_unit u = true -> not_bracketed u = true -> strip_brackets u = u.
+Proof.
+  intros Hu. apply strip_brackets_plain. unfold conf_unit in Hu.
+  apply andb_true_iff in Hu as [Hu _]. apply andb_true_iff in Hu as [Hu _].
+  apply no_space_stripped. exact Hu.
+Qed.
+
+(* text values that are not plain decimal literals come back verbatim, in every section *)
+Lemma read_value_text k name s : ~ plain_decimal (comma_to_dot s) -> read_value k name s = VStr s.
+Proof.
+  intros H. unfold read_value. destruct k; try reflexivity;
+    try (destruct (is_number_string name); [reflexivity|]); apply num_text; exact H.
+Qed.
+
+(* ~Curves values and API / UWI outside ~Parameter are never converted *)
+Lemma read_value_curves name s : read_value KCurves name s = VStr s.
+Proof. reflexivity. Qed.
+Lemma read_value_number_string k name s :
+  k <> KParameter -> is_number_string name = true -> read_value k name s = VStr s.
+Proof. intros Hk Hn. unfold read_value. destruct k; try reflexivity; try rewrite Hn; try reflexivity. congruence. Qed.
+
+(* "numbers compared numerically": equality of header values up to the float literal *)
+Definition val_equiv (numeq : list N -> list N -> bool) (a b : hval) : Prop :=
+  match a, b with
+  | VFloat x, VFloat y => numeq x y = true
+  | _, _ => a = b
+  end.
+
+Lemma read_value_numeric numeq fstr k name val :
+  k <> KCurves -> (k = KParameter \/ is_number_string name = false) ->
+  val_equiv numeq (num (vstr fstr val)) val ->
+  val_equiv numeq (read_value k name (vstr fstr val)) val.
+Proof.
+  intros Hc Hn H. unfold read_value. destruct k; try congruence; try exact H;
+    destruct Hn as [Hn|Hn]; try discriminate Hn; rewrite Hn; exact H.
+Qed.
+
+(* under the two hypotheses "unit not bracketed" and "the value text reads back as the value"
+   the item read back is the item written, with the mnemonic case-mapped *)
+Lemma expected_meta fstr k c it :
+  conf_unit (i_unit it) = true -> not_bracketed (i_unit it) = true ->
+  read_value k (i_orig it) (vstr fstr (i_value it)) = i_value it ->
+  meta (expected_item fstr k c it) = (apply_case c (i_orig it), i_unit it, i_value it, i_descr it).
+Proof.
+  intros Hu Hb Hv. unfold expected_item, meta, new_item. cbn [i_orig i_unit i_value i_descr].
+  rewrite Hv, (strip_brackets_conf _ Hu Hb). reflexivity.
+Qed.
+
+(* ====================================================================================== *)
+(* 5. a whole section                                                                      *)
+(* ====================================================================================== *)
+(* the line is neither a comment nor a section title: first character of the mnemonic *)
+Definition starts_ok (cc : list N) (it : hitem) : bool :=
+  match i_orig it with [] => false | c0 :: _ => negb (in_str c0 cc) && negb (c0 =? 126) end.
+
+Lemma parse_body_step v k c ie cc tr raw rest acc c0 L x :
+  strip raw = c0 :: L -> in_str c0 cc = false -> (c0 =? 126) = false ->
+  parse_line v k c (c0 :: L) = Some x ->
+  parse_body v k c ie cc tr (raw :: rest) acc = parse_body v k c ie cc tr rest (sect_append tr acc x).
+Proof.
+  intros Hs H1 H2 H3. cbn [parse_body]. rewrite Hs, H1. change ch_tilde with 126.
+  rewrite H2, H3. reflexivity.
+Qed.
+
+Definition item_ok (fstr : list N -> list N) (v : las_version) (k : skind) (c : mcase) (cc : list N)
+           (ord : hitem -> item_order) (lw mw : nat) (it : hitem) : Prop :=
+  conf_item fstr k (ord it) lw mw it = true /\ covers fstr (ord it) lw mw it /\
+  ord it = reader_order v k (apply_case c (i_orig it)) /\ starts_ok cc it = true.
+
+Theorem body_roundtrip fstr v k c ie cc tr lw mw (ord : hitem -> item_order) : forall items acc,
+  (forall it, In it items -> item_ok fstr v k c cc ord lw mw it) ->
+  exists acc',
+    parse_body v k c ie cc tr (map (fun it => format_item fstr (ord it) lw mw it) items) acc = POk acc' /\
+    map meta acc' = map meta acc ++ map (fun it => meta (expected_item fstr k c it)) items.
+Proof.
+  induction items as [|it items IH]; intros acc Hall.
+  - exists acc. split; [reflexivity|]. cbn [map]. rewrite app_nil_r. reflexivity.
+  - destruct (Hall it (or_introl eq_refl)) as (Hconf & Hcov & Hord & Hst).
+    destruct (strip_format_head fstr k (ord it) lw mw it Hconf) as (c0 & L & mn' & Hmn & Hs).
+    unfold starts_ok in Hst. rewrite Hmn in Hst. apply andb_true_iff in Hst as [H1 H2].
+    apply negb_true_iff in H1. apply negb_true_iff in H2.
+    pose proof (stripped_item_roundtrip fstr v k c (ord it) lw mw it Hconf Hcov Hord) as Hp.
+    rewrite Hs in Hp. cbn [map].
+    rewrite (parse_body_step v k c ie cc tr _ _ acc c0 L _ Hs H1 H2 Hp).
+    destruct (IH (sect_append tr acc (expected_item fstr k c it))
+                 (fun it' Hin => Hall it' (or_intror Hin))) as (acc' & Hpb & Hmeta).
+    exists acc'. split; [exact Hpb|]. rewrite Hmeta, sect_append_meta, <- app_assoc. reflexivity.
+Qed.
+
+(* C03.5 the lines section_lines writes for a standard section read back, in order, as the
+   expected items — widths and orders are the ones section_lines computes *)
+Theorem section_roundtrip fstr v k c ie cc tr items : is_std k = true ->
+  (forall it, In it items ->
+     conf_item fstr k (sec_ord v (sect_table_name k) it) (sec_lw items)
+               (sec_mw fstr (sec_ord v (sect_table_name k)) items) it = true /\
+     starts_ok cc it = true) ->
+  exists lines items',
+    section_lines fstr v (sect_table_name k) items = Some lines /\
+    parse_body v k c ie cc tr lines [] = POk items' /\
+    map meta items' = map (fun it => meta (expected_item fstr k c it)) items.
+Proof.
+  intros Hk Hall. rewrite section_lines_eq. destruct (lookup_complete v k Hk) as [e He]. rewrite He.
+  destruct (body_roundtrip fstr v k c ie cc tr (sec_lw items)
+              (sec_mw fstr (sec_ord v (sect_table_name k)) items) (sec_ord v (sect_table_name k)) items [])
+    as (acc' & Hpb & Hmeta).
+  - intros it Hin. destruct (Hall it Hin) as [Hc Hs]. split; [exact Hc|]. split; [|split; [|exact Hs]].
+    + apply widths_cover. exact Hin.
+    + unfold sec_ord. rewrite (writer_order_is_reader_order v k c (i_orig it) Hk). reflexivity.
+  - eexists _, acc'. split; [reflexivity|]. split; [exact Hpb|]. exact Hmeta.
+Qed.
+
+(* ====================================================================================== *)
+(* 6. standardize_value                                                                    *)
+(* ====================================================================================== *)
+Lemma standardize_cases fzero (val : hval) (u : list N) :
+  (standardize fzero val u = val /\ val <> VNone /\ (u = [] \/ val <> VStr []))
+  \/ (val = VNone /\ u = [] /\ standardize fzero val u = VStr [])
+  \/ (u <> [] /\ (val = VNone \/ val = VStr []) /\ standardize fzero val u = VInt 0).
+Proof.
+  unfold standardize. destruct u as [|c u].
+  - destruct val; [left|left|left|right; left]; repeat split; try discriminate; try (left; reflexivity).
+  - destruct val as [z|l|s|]; cbn [v_falsy v_is_zero].
+    + left. destruct (z =? 0)%Z; cbn [andb negb]; repeat split; try discriminate; right; discriminate.
+    + left. destruct (fzero l); cbn [andb negb]; repeat split; try discriminate; right; discriminate.
+    + destruct s as [|d s]; cbn [andb negb].
+      * right; right. repeat split; [discriminate|right; reflexivity].
+      * left. repeat split; try discriminate. right. discriminate.
+    + right; right. cbn [andb negb]. repeat split; [discriminate|left; reflexivity].
+Qed.
+
+Lemma standardize_idem fzero (val : hval) (u : list N) :
+  standardize fzero (standardize fzero val u) u = standardize fzero val u.
+Proof.
+  destruct (standardize_cases fzero val u) as [(H & _ & _)|[(Hv & Hu & H)|(Hu & Hv & H)]].
+  - rewrite H. exact H.
+  - rewrite H. subst u. reflexivity.
+  - rewrite H. unfold standardize. destruct u as [|c u]; [congruence|]. reflexivity.
+Qed.
